@@ -46,24 +46,35 @@ def unqualified (n : String) : String := (n.splitOn ".").getLast?.getD n
 def sameName (wn rn : String) (ral : List String) : Bool :=
   unqualified wn == unqualified rn || ral.contains wn || ral.contains (unqualified wn)
 
-/-- the specification's "schemas match"; `exact` forbids a promotion at the top level -/
-def matchesX (exact : Bool) (fuel : Nat) (wenv renv : Env) (w r : Schema) : Bool :=
-  match fuel with
-  | 0 => false
-  | fuel+1 =>
-  match deref wenv w, deref renv r with
-  | some w, some r =>
-    match w, r with
-    | .union _, _ => true
-    | _, .union _ => true
-    | .array wi, .array ri => matchesX false fuel wenv renv wi ri
-    | .map wv, .map rv => matchesX false fuel wenv renv wv rv
-    | .record wn _ _, .record rn _ ral => sameName wn rn ral
-    | .enum wn _ _ _, .enum rn _ _ ral => sameName wn rn ral
-    | .fixed wn ws _ _, .fixed rn rs _ ral => ws == rs && sameName wn rn ral
-    | .prim wp _ _, .prim rp _ _ => wp == rp || (!exact && promotable wp rp)
-    | _, _ => false
+/-- two dereferenced schemas that are not both arrays / both maps -/
+def matchFlat (exact : Bool) (w r : Schema) : Bool :=
+  match w, r with
+  | .union _, _ => true
+  | _, .union _ => true
+  | .record wn _ _, .record rn _ ral => sameName wn rn ral
+  | .enum wn _ _ _, .enum rn _ _ ral => sameName wn rn ral
+  | .fixed wn ws _ _, .fixed rn rs _ ral => ws == rs && sameName wn rn ral
+  | .prim wp _ _, .prim rp _ _ => wp == rp || (!exact && promotable wp rp)
   | _, _ => false
+
+/-- the specification's "schemas match" (structural in the writer schema: arrays and maps descend into
+    their item / value types, everything else is decided on the two definitions); `exact` forbids a
+    promotion at the top level -/
+def matchesX (exact : Bool) (wenv renv : Env) : Schema → Schema → Bool
+  | .array wi, r =>
+    (match deref renv r with
+     | some (.array ri) => matchesX false wenv renv wi ri
+     | some (.union _) => true
+     | _ => false)
+  | .map wv, r =>
+    (match deref renv r with
+     | some (.map rv) => matchesX false wenv renv wv rv
+     | some (.union _) => true
+     | _ => false)
+  | w, r =>
+    (match deref wenv w, deref renv r with
+     | some wd, some rd => matchFlat exact wd rd
+     | _, _ => false)
 
 def matchesS := matchesX false
 def sameType := matchesX true
@@ -77,13 +88,13 @@ def fullNameEq (wenv renv : Env) (w r : Schema) : Bool :=
 /-- reader union: the first branch of the writer's own type — a named type with the writer's full
     name before one that only agrees on the unqualified name or an alias —, else the first the
     writer's type promotes to -/
-def pickBranch (fuel : Nat) (wenv renv : Env) (w : Schema) (rs : List Schema) : Option Schema :=
-  match rs.find? (fun b => fullNameEq wenv renv w b && sameType fuel wenv renv w b) with
+def pickBranch (wenv renv : Env) (w : Schema) (rs : List Schema) : Option Schema :=
+  match rs.find? (fun b => fullNameEq wenv renv w b && sameType wenv renv w b) with
   | some b => some b
   | none =>
-    match rs.find? (sameType fuel wenv renv w) with
+    match rs.find? (sameType wenv renv w) with
     | some b => some b
-    | none => rs.find? (matchesS fuel wenv renv w)
+    | none => rs.find? (matchesS wenv renv w)
 
 /-- the promoted value -/
 def promote (wp rp : Prim) (v : Val) : R Val :=
@@ -129,7 +140,7 @@ def resolveRead (fuel : Nat) (wenv renv : Env) (w r : Schema) (bs : Bytes) : R (
   match fuel with
   | 0 => .error .fuel
   | fuel+1 =>
-  if !matchesS fuel wenv renv w r then .error .resolution else
+  if !matchesS wenv renv w r then .error .resolution else
   match deref wenv w, deref renv r with
   | some w, some r =>
     match w, r with
@@ -139,7 +150,7 @@ def resolveRead (fuel : Nat) (wenv renv : Env) (w r : Schema) (bs : Bytes) : R (
       | none => throw .index
       | some b => resolveRead fuel wenv renv b r rest
     | _, .union rbs =>
-      match pickBranch fuel wenv renv w rbs with
+      match pickBranch wenv renv w rbs with
       | some b => resolveRead fuel wenv renv w b bs
       | none => throw .resolution
     | .prim wp _ _, .prim rp _ _ => do
